@@ -1,14 +1,34 @@
 (* Proofs_Pool.v — properties of ALL finite histories of the state machine of
    Pool.v:
      C10  every live object is always valid (class invariants are preserved by
-          every operation, including failed ones and moves),
+          every operation, including failed ones and moves):
+          [eval_op_inv], [inv_step], [inv_run], [inv_history], [moved_from_*];
      C14  value semantics (an operation changes only its target slots; a
-          throwing operation changes nothing),
-     C08  operations across different grids are refused and change nothing,
-     C09  no undefined behaviour on well-typed operations over a valid state.
+          throwing operation changes nothing):
+          [frame], [frame_run], [throw_changes_nothing], [ub_changes_nothing],
+          [observers_change_nothing], [copy_independent], [copy_value];
+     C08  operations across different grids are refused and change nothing:
+          [c08_*];
+     C09  no undefined behaviour on well-typed operations over a valid state:
+          [no_ub], [no_ub_history], [transform_total].
 
-   The linear solver handed to [interpolate] is a section variable; the only
-   assumption about it is that it returns a vector of the problem size. *)
+   Layout: generic facts about outcomes; Section PoolPure (everything that does
+   not mention the solver: vocabulary [ObjInv] [StInv] [targets] [op_sized]
+   [op_typed], what each library function returns on valid arguments);
+   Section PoolFacts (the state machine, for a solver [solver] about which only
+   [solver_len] is assumed); then [gauss_solve_len], the witness
+   [eval_op_inv_size_needed] and examples over Qc.
+
+   Deviations from the statements as first written down, each forced by a
+   counterexample recorded in this file:
+   - [eval_op_inv], [inv_step], [inv_run], [inv_history] assume [op_sized]:
+     list arguments that become a NEW grid are shorter than 2^63
+     ([eval_op_inv_size_needed]);
+   - [moved_from_sup], [moved_from_spl] (move CONSTRUCTION d <- a) assume
+     d <> a ([sup_move_same_slot]); the move ASSIGNMENTS hold for d = a too;
+   - [solver_len] is only assumed for the square case n = length sys: the
+     rectangular form is false for [gauss_solve]
+     ([gauss_solve_not_rectangular]), the square one holds ([gauss_solve_len]). *)
 From Coq Require Import List Arith NArith ZArith Bool Lia ZifyBool ZifyN.
 From BSpl Require Import ListAux Scalar Outcome Support Poly Spline Ops Forms Generator
   Interp Solver Pool Spec Spec_Ops Spec_Gen
@@ -83,7 +103,6 @@ Proof.
   apply safe_bind; [exact Hi|]. intros r _. apply H. left. reflexivity.
 Qed.
 
-(* ---- the main case analysis ---- *)
 Lemma safe_last {A B} (m : outcome A) (f : A -> outcome B) :
   safe m -> (forall a, safe (f a)) -> safe (bind m f).
 Proof. intros Hm Hf. apply safe_bind; [exact Hm | intros a _; apply Hf]. Qed.
@@ -94,6 +113,9 @@ Proof. intros Hm Hf. apply safe_bind; [exact Hm | intros a _; apply Hf]. Qed.
 Section PoolPure.
   Context {F : Type} {K : Ops F} {L : Laws K}.
 
+  (* ================================================================== *)
+  (* Specification vocabulary                                           *)
+  (* ================================================================== *)
   (* validity of one stored object: the class invariant of its C++ class.  A
      support additionally lives on a valid grid (it shares ownership of one). *)
   Definition ObjInv (o : obj F) : Prop :=
@@ -133,6 +155,9 @@ Section PoolPure.
     | _ => []
     end.
 
+  (* ================================================================== *)
+  (* The store                                                          *)
+  (* ================================================================== *)
   Lemma lookup_write (st : state F) j o i :
     lookup (write st (j, o)) i = if (i =? j)%nat then Some o else lookup st i.
   Proof. reflexivity. Qed.
@@ -258,6 +283,9 @@ Section PoolPure.
     injection Hn as <- <-. exists n. cbn [fst snd]. eauto.
   Qed.
 
+  (* ================================================================== *)
+  (* What the library functions return on valid arguments               *)
+  (* ================================================================== *)
   (* grids of two objects: equal or not *)
   Lemma grid_eq_dec (g h : list F) : g = h \/ g <> h.
   Proof.
@@ -618,6 +646,9 @@ Section PoolPure.
     cbn [okP]. split; assumption.
   Qed.
 
+  (* ================================================================== *)
+  (* Validity of written objects: vocabulary and small facts (C10)      *)
+  (* ================================================================== *)
   (* The model's grid invariant carries the size bound of a real std::vector
      (< 2^63 elements), which [grid_ctor] cannot establish by itself for the
      mathematical lists of the model: the list arguments from which an operation
@@ -670,6 +701,9 @@ Section PoolPure.
     ObjInv (VSpl m) /\ sgridp m = sgridp s /\ sord m = sord s /\ scoefs m = [].
   Proof. intros Hs. split; [apply moved_from_spl_inv; exact Hs | repeat split]. Qed.
 
+  (* ================================================================== *)
+  (* Totality without undefined behaviour (C09): library functions      *)
+  (* ================================================================== *)
   (* the forms *)
   Lemma linear_safe (o : opx F) (a : spline F) : opx_inv o -> SplInv a -> safe (linear o a).
   Proof.
@@ -801,6 +835,9 @@ Section PoolPure.
   Lemma check_overlap_safe (a b : spline F) : SplInv a -> SplInv b -> safe (check_overlap a b).
   Proof. intros Ha Hb. destruct (check_overlap_total a b Ha Hb) as [r ->]. exact I. Qed.
 
+  (* ================================================================== *)
+  (* Typing of operations (C09)                                         *)
+  (* ================================================================== *)
   (* ---- typing of operations ---- *)
   Definition is_grid (st : state F) (i : nat) : Prop := exists g, lookup st i = Some (VGrid g).
   Definition is_sup (st : state F) (i : nat) : Prop := exists s, lookup st i = Some (VSup s).
@@ -971,8 +1008,14 @@ Ltac fin := intros; exact I.
 Section PoolFacts.
   Context {F : Type} {K : Ops F} {L : Laws K}.
   Variable solver : nat -> list (row F) -> list F.
-  Hypothesis solver_len : forall n sys, length (solver n sys) = n.
+  (* a solver returns a vector of the problem size.  Only the square case — the
+     one [interpolate] uses, n = number of assembled rows — is assumed, so that
+     the theorems apply to [gauss_solve] of Solver.v (see [gauss_solve_len]). *)
+  Hypothesis solver_len : forall sys, length (solver (length sys) sys) = length sys.
 
+  (* ================================================================== *)
+  (* Steps; C14: frame properties and value semantics                   *)
+  (* ================================================================== *)
   (* ---- step ---- *)
   Lemma step_ok (st : state F) o ws r :
     eval_op solver st o = Ok (ws, r) -> step solver st o = (commit st ws, Ok r).
@@ -1077,6 +1120,9 @@ Section PoolFacts.
     cbn [bind ret fst commit fold_left]. rewrite lookup_write, Nat.eqb_refl. reflexivity.
   Qed.
 
+  (* ================================================================== *)
+  (* C10: every object an operation writes is valid                     *)
+  (* ================================================================== *)
   Lemma interp_build_inv order (x : support F) sys :
     SInv x -> GInv (sgrid x) -> (2 <= sup_size x)%N ->
     length sys = ((order + 1) * (N.to_nat (sup_size x) - 1))%nat ->
@@ -1275,6 +1321,9 @@ Section PoolFacts.
     Forall op_sized ops -> StInv (fst (run solver [] ops)).
   Proof. apply inv_run. exact inv_init. Qed.
 
+  (* ================================================================== *)
+  (* C10/C14: moved-from objects                                        *)
+  (* ================================================================== *)
   (* Support d(std::move(a)): the source becomes the empty view of its grid *)
   Theorem moved_from_sup (st : state F) d a s :
     d <> a -> lookup st a = Some (VSup s) ->
@@ -1326,6 +1375,9 @@ Section PoolFacts.
     intros Hda. destruct (neq_eqb a d Hda) as [E1 E2]. rewrite E2. reflexivity.
   Qed.
 
+  (* ================================================================== *)
+  (* C08: operations across different grids are refused, state unchanged *)
+  (* ================================================================== *)
   Lemma step_of_throw (st : state F) o e :
     eval_op solver st o = Throw e -> step solver st o = (st, Throw e).
   Proof. apply step_throw. Qed.
@@ -1435,6 +1487,9 @@ Section PoolFacts.
     rewrite (gen_ctor2_mismatch knots gr Hn Hd Hl Hne). reflexivity.
   Qed.
 
+  (* ================================================================== *)
+  (* C09: no undefined behaviour on well-typed operations               *)
+  (* ================================================================== *)
   Lemma eval_safe (st : state F) o : StInv st -> op_typed st o -> safe (eval_op solver st o).
   Proof.
     intros Hst Ht. destruct o; unfold eval_op; cbn [op_typed] in Ht.
@@ -1633,4 +1688,170 @@ Section PoolFacts.
       [exact I | destruct e; exact H | exact H].
   Qed.
 
+  (* ---- whole histories ---- *)
+
+  (* every operation of the history is well-typed in the state it is applied to *)
+  Fixpoint typed_history (st : state F) (ops : list (op F)) : Prop :=
+    match ops with
+    | [] => True
+    | o :: r => op_typed st o /\ typed_history (fst (step solver st o)) r
+    end.
+
+  Definition clean (x : outcome (obs F)) : Prop :=
+    match x with
+    | UB _ => False
+    | Throw BadOptionalAccess | Throw StdOutOfRange => False
+    | _ => True
+    end.
+
+  (* C09 and C10 together over all well-typed finite histories *)
+  Theorem no_ub_history (ops : list (op F)) : forall st : state F,
+    StInv st -> typed_history st ops ->
+    Forall clean (snd (run solver st ops)) /\ StInv (fst (run solver st ops)).
+  Proof.
+    induction ops as [|o ops IH]; intros st Hst Ht; [split; [constructor | exact Hst]|].
+    destruct Ht as [Ho Ht]. rewrite run_cons. cbn [fst snd].
+    pose proof (inv_step st o Hst (op_typed_sized st o Ho)) as Hst'.
+    destruct (IH _ Hst' Ht) as [Hc Hi]. split; [|exact Hi].
+    constructor; [exact (no_ub st o Hst Ho) | exact Hc].
+  Qed.
+
+  (* C14 over histories: a slot that no operation of the history targets keeps
+     its binding *)
+  Theorem frame_run (ops : list (op F)) : forall (st : state F) i,
+    (forall o, In o ops -> ~ In i (targets o)) ->
+    lookup (fst (run solver st ops)) i = lookup st i.
+  Proof.
+    induction ops as [|o ops IH]; intros st i H; [reflexivity|].
+    rewrite run_cons. cbn [fst].
+    rewrite IH by (intros o' Ho'; apply H; right; exact Ho').
+    apply frame. apply H. left. reflexivity.
+  Qed.
+
 End PoolFacts.
+
+(* ================================================================== *)
+(* The solver of Solver.v satisfies the assumption made about solvers  *)
+(* ================================================================== *)
+Section SolverLen.
+  Context {F : Type} {K : Ops F}.
+
+  Lemma swap_rows_length (rows : list (list F)) i j : length (swap_rows rows i j) = length rows.
+  Proof. unfold swap_rows. rewrite map_length, combine_length, seq_length. apply Nat.min_id. Qed.
+
+  Lemma eliminate_length (rows rows' : list (list F)) k :
+    eliminate rows k = Some rows' -> length rows' = length rows.
+  Proof.
+    unfold eliminate. destruct (find_pivot rows k 0) as [p|]; [|discriminate]. intros [= <-].
+    rewrite map_length, combine_length, seq_length, Nat.min_id. apply swap_rows_length.
+  Qed.
+
+  Lemma gauss_loop_length fuel : forall (rows rows' : list (list F)) k,
+    gauss_loop rows k fuel = Some rows' -> length rows' = length rows.
+  Proof.
+    induction fuel as [|fuel IH]; intros rows rows' k H; cbn [gauss_loop] in H.
+    - injection H as <-. reflexivity.
+    - destruct (eliminate rows k) as [rows1|] eqn:E; [|discriminate].
+      rewrite (IH _ _ _ H). exact (eliminate_length _ _ _ E).
+  Qed.
+
+  Theorem gauss_solve_len (sys : list (row F)) :
+    length (gauss_solve (length sys) sys) = length sys.
+  Proof.
+    unfold gauss_solve.
+    destruct (gauss_loop (map (dense_row (length sys)) sys) 0 (length sys)) as [rows|] eqn:E.
+    - rewrite map_length, (gauss_loop_length _ _ _ _ E), map_length. reflexivity.
+    - apply repeat_length.
+  Qed.
+End SolverLen.
+
+(* ================================================================== *)
+(* Why [eval_op_inv] needs [op_sized]: the grid constructor of the      *)
+(* model accepts a (mathematical) list of 2^63 points, which no         *)
+(* std::vector can hold and which the model's [GInv] excludes           *)
+(* ================================================================== *)
+Section SizeBound.
+  Context {F : Type} {K : Ops F} {L : Laws K}.
+
+  Lemma increasing_fofnat_seq s n : increasing (map (@fofnat F K) (seq s n)).
+  Proof.
+    intros i a b Ha Hb.
+    assert (S i < n)%nat as Hi.
+    { assert (nth_error (map (@fofnat F K) (seq s n)) (S i) <> None) as H by congruence.
+      apply nth_error_Some in H. rewrite map_length, seq_length in H. exact H. }
+    rewrite nth_error_map', nth_error_seq in Ha, Hb by lia. cbn [option_map] in Ha, Hb.
+    injection Ha as <-. injection Hb as <-. unfold fofnat. apply fofZ_lt. lia.
+  Qed.
+
+  Lemma big_grid (n : nat) : (2 ^ 63 <= N.of_nat n)%N ->
+    grid_ctor (map (@fofnat F K) (seq 0 n)) = Ok (map (@fofnat F K) (seq 0 n)) /\
+    ~ GInv (map (@fofnat F K) (seq 0 n)).
+  Proof.
+    intros Hn. split.
+    - destruct (proj2 (grid_ctor_iff (map (@fofnat F K) (seq 0 n)))) as [g Hg].
+      + split; [|apply increasing_fofnat_seq]. unfold nlen. rewrite map_length, seq_length. lia.
+      + rewrite Hg. f_equal. exact (grid_ctor_ok _ _ Hg).
+    - intros (_ & H & _). unfold nlen in H. rewrite map_length, seq_length in H. lia.
+  Qed.
+
+  Theorem grid_size_bound_needed : exists pts : list F, grid_ctor pts = Ok pts /\ ~ GInv pts.
+  Proof.
+    eexists. apply (big_grid (N.to_nat (2 ^ 63))). rewrite N2Nat.id. apply N.le_refl.
+  Qed.
+
+  Theorem eval_op_inv_size_needed (solver : nat -> list (row F) -> list F) :
+    exists (o : op F) ws r, StInv (F:=F) [] /\ eval_op solver [] o = Ok (ws, r) /\
+                            ~ Forall (fun w => ObjInv (snd w)) ws.
+  Proof.
+    destruct grid_size_bound_needed as (pts & Hc & Hn).
+    exists (GridNew 0 pts), [(0%nat, VGrid pts)], void. split; [exact inv_init|]. split.
+    - unfold eval_op. rewrite Hc. reflexivity.
+    - intros H. apply Forall_cons_iff in H as [H _]. exact (Hn H).
+  Qed.
+End SizeBound.
+
+(* ================================================================== *)
+(* Instantiation and witnesses over the rationals                      *)
+(* ================================================================== *)
+From BSpl Require Import Instances.
+
+(* the theorems apply to the executable model: exact rationals, Gauss solver *)
+Definition no_ub_gauss :=
+  @no_ub Qcanon.Qc QcOps Qc_laws gauss_solve (@gauss_solve_len Qcanon.Qc QcOps).
+Definition inv_history_gauss :=
+  @inv_history Qcanon.Qc QcOps Qc_laws gauss_solve (@gauss_solve_len Qcanon.Qc QcOps).
+
+(* the stronger assumption "length (solver n sys) = n for all n" is false for it *)
+Example gauss_solve_not_rectangular :
+  length (gauss_solve 0 [mkRow [] (qc 0 1)]) = 1%nat.
+Proof. vm_compute. reflexivity. Qed.
+
+Definition pool_g1 : list Qcanon.Qc := [qc 0 1; qc 1 1; qc 2 1; qc 3 1].
+Definition pool_g2 : list Qcanon.Qc := [qc 0 1; qc 1 1; qc 2 1].
+
+(* [moved_from_sup] needs d <> a: "moving a slot into itself" with the
+   move CONSTRUCTOR form keeps the value (the write to d comes last) *)
+Example sup_move_same_slot :
+  let st := fst (run gauss_solve [] [GridNew 0 pool_g1; SupNew 1 0 0 3]) in
+  lookup st 1 = Some (VSup (mkSup pool_g1 0 3)) /\
+  lookup (fst (step gauss_solve st (SupMove 1 1))) 1 = Some (VSup (mkSup pool_g1 0 3)).
+Proof. split; vm_compute; reflexivity. Qed.
+
+(* a history mixing constructions, arithmetic across one and two grids, moves,
+   a self move-assignment, interpolation, the generator, forms and operator
+   application: two calls are refused with DIFFERING_GRIDS, all others succeed *)
+Definition pool_hist : list (op Qcanon.Qc) :=
+  [GridNew 0 pool_g1; GridNew 1 pool_g2; SupNew 2 0 0 3; SupWhole 3 1;
+   SplNew 4 1 2 [[qc 1 1; qc 2 1]; [qc 0 1; qc 1 1]];
+   SplNew 5 1 3 [[qc 1 1; qc 1 1]; [qc 1 1; qc 1 1]];
+   SplAdd 6 4 5; SplAdd 6 4 4; SplMove 7 4; Show 4; SplMoveAssign 6 6; Show 6;
+   Interp 8 1 2 [qc 1 1; qc 2 1; qc 0 1] []; SplEval 8 (qc 1 2);
+   Gen1 10 1 [qc 0 1; qc 0 1; qc 1 1; qc 2 1; qc 2 1];
+   Bilin (PDer 1) (PSpl 10) 10 11; Apply 12 (PSpl 5) 4; Apply 12 (PSpl 5) 8].
+
+Example pool_hist_outcomes :
+  map (fun x => match x with Ok _ => None | Throw e => Some (inl e) | UB k => Some (inr k) end)
+      (snd (run gauss_solve [] pool_hist))
+  = [None; None; None; None; None; None; Some (inl DIFFERING_GRIDS); None; None; None; None; None;
+     None; None; None; None; None; Some (inl DIFFERING_GRIDS)].
+Proof. vm_compute. reflexivity. Qed.
